@@ -253,6 +253,18 @@ theorem C19_ngram_analyzer_snippet_safe_partial (s : Text) (hv : ∀ c ∈ s, c.
   · have := ngram_recOk s hv minG maxG hmin hle
     simpa [ngramTokens, toSTok, mkToken, List.map_map, Function.comp_def] using this
 
+/-- … in closed form: `max_num_chars ≥ 4 · max_gram` suffices (e.g. the default 150 with every
+`max_gram ≤ 37`); the length bound then follows from `C19_fragment_length_partial` -/
+theorem C19_ngram_analyzer_snippet_safe (s : Text) (hv : ∀ c ∈ s, c.code < 0x110000)
+    (minG maxG : Nat) (hmin : 0 < minG) (hle : minG ≤ maxG) (M : Nat) (hM : 4 * maxG ≤ M)
+    (sc : Token → Option Nat) :
+    ∃ sn, snippet s M ((ngramTokens s minG maxG false).map (toSTok sc)) = some sn ∧
+      (∀ h ∈ sn.hl, h.1 ≤ h.2 ∧ h.2 ≤ byteLen sn.fragment ∧
+        IsBoundary sn.fragment h.1 ∧ IsBoundary sn.fragment h.2) ∧
+      ∃ out, toHtml sn = some out :=
+  C19_ngram_analyzer_snippet_safe_partial s hv minG maxG hmin hle M sc
+    (fun t ht => Nat.le_trans (ngram_token_len s hv minG maxG hmin hle false t ht) hM)
+
 /-- if no single token is longer than `max_num_chars` bytes, the fragment has at most
 `max_num_chars` bytes, hence at most `max_num_chars` characters -/
 theorem C19_fragment_length_partial (s : Text) (M : Nat) (ts : List STok) (hc : SContract s ts)
